@@ -111,8 +111,14 @@ def oracle(ctx, ev, r, tm):
     r.count("programs_checked")
     if errs:
         e = errs[0]
+        is_default = False
+        if len(e) > 4:
+            try:
+                is_default = e[4] == type(e[4])()
+            except Exception:
+                is_default = False
         r.add_violation(Violation(
-            PROP, P.site_of(ev), "refinement", {"decl": e[3], "rep": ev.rep},
+            PROP, P.site_of(ev), "refinement", {"rep": ev.rep, "value_is_base_type_default": is_default},
             {"unit": P.clean_unit(ctx.unit), "choices": list(ev.choices), "path": e[1], "program": R.show(tm)[:300]},
             f"{ctx.spec['name']}: at {e[1]}: {e[2]}"))
 
